@@ -59,10 +59,21 @@ def first_occ(seq):
 
 def mgr_handlers(spec, ev):
     """handlers of a manager spec {'bases': [...], 'regs': [[ev,h]...]} for an event: independent spec"""
-    inherited = []
+    net = []
     for b in spec.get('bases', []):
-        inherited += mgr_handlers(b, ev)
-    return first_occ(inherited + [h for e, h in spec.get('regs', []) if e == ev])
+        net += mgr_handlers(b, ev)
+    net += [h for e, h in spec.get('regs', []) if e == ev]
+    # then the history of add / del / clear: the net registrations
+    for op in spec.get('ops', []):
+        if op[1] != ev:
+            continue
+        if op[0] == 'add':
+            net.append(op[2])
+        elif op[0] == 'del':
+            net = [x for x in net if x != op[2]]
+        else:
+            net = []
+    return first_occ(net)
 
 
 _STEP = {
@@ -155,22 +166,23 @@ class Env:
             return f
         self.fn = fn
 
-        def register(mgr, level, regs):
+        def register(mgr, level, regs, ops=()):
             for ev, h in regs:
                 mgr.add_listener(ev, fn(level, h, ev))
+            apply_ops(mgr, ops, lambda h, ev: fn(level, h, ev))
         self.register = register
 
         # service classes: bases first (with the listeners they have when the subclass is created)
         def make_class(spec, name, body=None):
             bases = tuple(make_class(b, '%sB%d' % (name, i)) for i, b in enumerate(spec.get('bases', []))) or (Service,)
             cls = type(Service)(name, bases, dict(body or {}))
-            register(cls.event_manager, 'svc', spec.get('regs', []))
+            register(cls.event_manager, 'svc', spec.get('regs', []), spec.get('ops', ()))
             return cls
 
         meth_mgrs = []
         for i, m in enumerate(world['meths']):
             em = EventManager(None)
-            register(em, 'meth%d' % i, m.get('regs', []))
+            register(em, 'meth%d' % i, m.get('regs', []), m.get('ops', ()))
             meth_mgrs.append(em)
 
         def op(ctx, a):
@@ -192,9 +204,9 @@ class Env:
         self.outp = make_proto(outp, validator)
         self.inp_name, self.outp_name, self.msgpack_keys = inp, outp, msgpack_keys
         self.app = Application([self.svc_cls], 'tns', in_protocol=self.inp, out_protocol=self.outp)
-        register(self.app.event_manager, 'app', world['app'].get('regs', []))
-        register(self.inp.event_manager, 'inprot', world['inprot'].get('regs', []))
-        register(self.outp.event_manager, 'outprot', world['outprot'].get('regs', []))
+        register(self.app.event_manager, 'app', world['app'].get('regs', []), world['app'].get('ops', ()))
+        register(self.inp.event_manager, 'inprot', world['inprot'].get('regs', []), world['inprot'].get('ops', ()))
+        register(self.outp.event_manager, 'outprot', world['outprot'].get('regs', []), world['outprot'].get('ops', ()))
         # stage wrappers on the protocol *instances*
         for stage, name in STAGE_METHOD.items():
             self._wrap(self.inp, name, stage, stage_inj)
@@ -241,7 +253,7 @@ class Env:
 
     # -------------------------------------------------------------------------------- transports
     def attach_transport(self, srv):
-        self.register(srv.event_manager, 'trans', self.world['trans'].get('regs', []))
+        self.register(srv.event_manager, 'trans', self.world['trans'].get('regs', []), self.world['trans'].get('ops', ()))
 
     def run_serverbase(self, body):
         """the call sequence every in-tree transport uses, nothing else (cf. spyne/server/zeromq.py)"""
@@ -295,6 +307,26 @@ class Env:
         res['out_error'] = seen.get('out_error')
         res['status'] = status[0] if status else None
         return res
+
+
+def apply_ops(mgr, ops, fn):
+    """a history of add_listener / del_listener(event, handler) / del_listener(event) calls on a real manager;
+    returns, per op, whether KeyError was raised"""
+    raised = []
+    for op in ops:
+        try:
+            if op[0] == 'add':
+                mgr.add_listener(op[1], fn(op[2], op[1]))
+            elif op[0] == 'del':
+                mgr.del_listener(op[1], fn(op[2], op[1]))
+            else:
+                mgr.del_listener(op[1])
+            raised.append(False)
+        except KeyError:
+            # del_listener(event) on a name that has no dict entry: the model has no notion of "no entry" as
+            # opposed to "empty set", nothing fires either way -> not compared
+            raised.append(op[0] == 'del')
+    return raised
 
 
 def make_proto(name, validator='soft'):
@@ -418,7 +450,8 @@ def model_inj(case, obs):
 
 
 def mgr_json(spec):
-    return {'bases': [mgr_json(b) for b in spec.get('bases', [])], 'regs': [[e, h] for e, h in spec.get('regs', [])]}
+    return {'bases': [mgr_json(b) for b in spec.get('bases', [])], 'regs': [[e, h] for e, h in spec.get('regs', [])],
+            'ops': [list(o) for o in spec.get('ops', [])]}
 
 
 def world_json(w):
@@ -703,6 +736,19 @@ def gen_regs(rng, events, hs, n):
     return [[rng.choice(events), rng.choice(hs)] for _ in range(n)]
 
 
+def gen_ops(rng, events, hs, n, clear=True):
+    ops = []
+    for _ in range(n):
+        k = rng.random()
+        if k < 0.45:
+            ops.append(['add', rng.choice(events), rng.choice(hs)])
+        elif k < 0.93 or not clear:
+            ops.append(['del', rng.choice(events), rng.choice(hs)])
+        else:
+            ops.append(['clear', rng.choice(events)])
+    return ops
+
+
 def gen_world(rng, raiser=None, rich=True):
     """registrations on every manager, with duplicates; the observer first on the application's manager.
     raiser = (level, event, kind): listener 9 registered on that manager for that event, raising"""
@@ -716,6 +762,10 @@ def gen_world(rng, raiser=None, rich=True):
          'outprot': {'regs': gen_regs(rng, PROT_EVENTS, hs, rng.choice([0, 2, 4]))},
          'trans': {'regs': gen_regs(rng, WSGI_EVENTS + ['method_call', 'wsdl'], hs, rng.choice([0, 2, 4]))},
          'raises': []}
+    for spec in [w['app'], w['svc'], w['inprot'], w['outprot'], w['trans']] + w['meths'] + w['svc']['bases']:
+        if rng.random() < 0.35:
+            evs = PROT_EVENTS if spec is w['inprot'] or spec is w['outprot'] else WSGI_EVENTS if spec is w['trans'] else METHOD_EVENTS
+            spec['ops'] = gen_ops(rng, evs, hs, rng.choice([1, 3, 6]), clear=spec is not w['app'])
     if rng.random() < 0.3 and w['svc']['bases']:
         w['svc']['bases'][0] = {'bases': [{'regs': gen_regs(rng, METHOD_EVENTS, hs, 2)}], 'regs': w['svc']['bases'][0]['regs']}
     if raiser:
@@ -809,10 +859,25 @@ def gen_histories(ctx):
         s = {'regs': gen_regs(rng, names, [1, 2, 3, 4, 5], rng.choice([0, 1, 3, 6, 10]))}
         if depth > 0 and rng.random() < 0.7:
             s['bases'] = [spec(depth - 1) for _ in range(rng.choice([1, 1, 2, 3]))]
+        if rng.random() < 0.7:
+            s['ops'] = gen_ops(rng, names, [1, 2, 3, 4, 5], rng.choice([1, 2, 4, 8, 14]))
         return s
     fixed = [{'regs': []}, {'regs': [['x', 1], ['x', 1]]}, {'regs': [['x', 1], ['x', 2], ['x', 1], ['y', 2], ['x', 3], ['x', 2]]},
              {'bases': [{'regs': [['x', 1], ['x', 2]]}, {'regs': [['x', 2], ['x', 3]]}], 'regs': [['x', 3], ['x', 4], ['x', 1]]},
              {'bases': [{'bases': [{'regs': [['x', 7]]}], 'regs': [['x', 8], ['x', 7]]}], 'regs': [['x', 9]]}]
+    # removals: head / middle / last / only element / absent / whole event, then registered again
+    abc = [['x', 1], ['x', 2], ['x', 3]]
+    for victim in (1, 2, 3, 9):
+        fixed.append({'regs': abc, 'ops': [['del', 'x', victim]]})
+        fixed.append({'regs': abc, 'ops': [['del', 'x', victim], ['add', 'x', victim]]})
+        fixed.append({'regs': abc, 'ops': [['del', 'x', victim], ['add', 'x', victim], ['add', 'x', victim], ['del', 'x', victim]]})
+        fixed.append({'bases': [{'regs': abc}], 'regs': [['x', 4]], 'ops': [['del', 'x', victim], ['add', 'x', 5], ['add', 'x', victim]]})
+    fixed += [{'regs': [['x', 1]], 'ops': [['del', 'x', 1]]}, {'regs': [['x', 1]], 'ops': [['del', 'x', 1], ['add', 'x', 1]]},
+              {'regs': [['x', 1]], 'ops': [['del', 'x', 1], ['del', 'x', 1], ['add', 'x', 2], ['add', 'x', 1]]},
+              {'regs': abc, 'ops': [['del', 'x', 1], ['del', 'x', 2], ['del', 'x', 3], ['add', 'x', 2], ['add', 'x', 1]]},
+              {'regs': abc + [['y', 1]], 'ops': [['clear', 'x'], ['add', 'x', 3], ['add', 'x', 1]]},
+              {'regs': abc, 'ops': [['clear', 'y'], ['del', 'y', 1], ['del', 'x', 1], ['add', 'x', 1], ['del', 'x', 2]]},
+              {'bases': [{'regs': abc, 'ops': [['del', 'x', 1]]}, {'regs': [['x', 1]]}], 'regs': [], 'ops': [['del', 'x', 2], ['add', 'x', 2]]}]
     for s in fixed:
         out.append(s)
     for _ in range(3000 if ctx.thorough else 400):
@@ -834,29 +899,36 @@ def real_history(spec, names):
                 calls.append(_h)
             fns[(h, ev)] = f
         return fns[(h, ev)]
+    keyerr = []
     if 'bases' not in spec:
         mgr = EventManager(None)       # a plain manager (application / protocol / transport / @rpc)
-        for ev, h in spec['regs']:
+        for ev, h in spec.get('regs', []):
             mgr.add_listener(ev, fn(h, ev))
+        keyerr = apply_ops(mgr, spec.get('ops', []), fn)
         managers = [mgr]
     else:
         managers = []
 
         def make(s, name):
-            bases = tuple(make(b, name + 'b%d' % i) for i, b in enumerate(s.get('bases', []))) or (Service,)
+            bases = tuple(make(b, name + 'b%d' % i)[0] for i, b in enumerate(s.get('bases', []))) or (Service,)
             cls = type(Service)(name, bases, {})
             for ev, h in s.get('regs', []):
                 cls.event_manager.add_listener(ev, fn(h, ev))
+            raised = apply_ops(cls.event_manager, s.get('ops', []), fn)
             managers.append(cls.event_manager)
-            return cls
-        make(spec, 'H')
+            return cls, raised
+        _, keyerr = make_top(make, spec)
         mgr = managers[-1]
     res = []
     for ev in names:
         del calls[:]
         mgr.fire_event(ev, None)
         res.append(list(calls))
-    return res, managers
+    return res, managers, keyerr
+
+
+def make_top(make, spec):
+    return make(spec, 'H')
 
 
 # ------------------------------------------------------------------------------------ run
@@ -899,22 +971,25 @@ def run(ctx):
 
     # ---- proof
     ctx.prove()
-    own_sources_only(ctx)
 
     # ---- T2 (a): registration histories on the real EventManager / ServiceBaseMeta
     Q = []
     hist, names = gen_histories(ctx)
     for spec in hist:
-        impl, managers = real_history(spec, names)
+        impl, managers, keyerr = real_history(spec, names)
         q = {'op': 'mgr', 'mgr': mgr_json(spec), 'query': names}
-        Q.append((q, {'ok': impl}))
-        ctx.case(q, nontrivial=len(spec.get('regs', [])) + len(spec.get('bases', [])) > 1)
+        Q.append((q, {'ok': impl, 'keyerr': keyerr}))
+        ctx.case(q, nontrivial=len(spec.get('regs', [])) + len(spec.get('bases', [])) + len(spec.get('ops', [])) > 1)
         ctx.hit('op:mgr')
+        ctx.hit('mgr-ops:%s' % ('none' if not spec.get('ops') else 'removals' if any(o[0] != 'add' for o in spec['ops']) else 'adds'))
+        ctx.hit('mgr-keyerror', sum(keyerr))
         # T3: registration order, once, inherited — against the independent first-occurrence specification
         for ev, got in zip(names, impl):
             want = mgr_handlers(spec, ev)
             if got != want:
-                why = 'twice' if len(got) != len(set(got)) else ('inheritance' if spec.get('bases') else 'order')
+                removed = any(o[0] != 'add' for o in spec.get('ops', []))
+                why = 'twice' if len(got) != len(set(got)) else 'removed-still-fires' if removed and set(got) - set(want) else \
+                    'removal' if removed else ('inheritance' if spec.get('bases') else 'order')
                 ctx.finding('listeners:' + why, 'listeners registered as %s fire as %s for %r, expected %s' % (
                     json.dumps(spec)[:300], got, ev, want), {'op': 'mgr', 'spec': spec, 'event': ev, 'got': got, 'expected': want})
         ctx.cov['traces_validated_against_impl'] += 1
@@ -991,30 +1066,6 @@ def run(ctx):
                        'than 6 observations / history with more than one registration')
 
 
-def own_sources_only(ctx):
-    """core.prove() greps every .lean file of the project for forbidden tokens; a work-in-progress file of
-    another property must not turn this check red: keep only hits in files that Props/C14 or Driver/C14 import"""
-    import os, re
-    seen, todo = set(), ['Props.C14', 'Driver.C14']
-    while todo:
-        m = todo.pop()
-        if m in seen:
-            continue
-        seen.add(m)
-        path = os.path.join(core.LEAN, *m.split('.')) + '.lean'
-        if os.path.exists(path):
-            todo += re.findall(r'^import\s+(\S+)', open(path).read(), re.M)
-    keep = []
-    for b in ctx.proof_broken:
-        if b.startswith('forbidden-token:'):
-            mod = b.split(':')[1][:-len('.lean')].replace('/', '.')
-            if mod not in seen:
-                ctx.hit('foreign-forbidden-token-ignored')
-                continue
-        keep.append(b)
-    ctx.proof_broken[:] = keep
-
-
 def late_checks(ctx):
     """registrations made after a subclass exists: a late listener on the base is not inherited (snapshot at class
     creation, as in the model's `Mgr.inherit`), and a listener of the subclass never fires on the base"""
@@ -1037,9 +1088,19 @@ def late_checks(ctx):
     if 3 in base:
         ctx.finding('listeners:shared-with-base', 'a listener registered on the subclass fires on the base class: %s' % base,
                     {'op': 'late', 'sub': sub, 'base': base})
+    # a subclass that unregisters an inherited listener does not unregister it from the base
+    Sub.event_manager.del_listener('x', f1)
+    del calls[:]; Sub.event_manager.fire_event('x', None); sub2 = list(calls)
+    del calls[:]; Base.event_manager.fire_event('x', None); base2 = list(calls)
+    if 1 in sub2 or sub2 != [3]:
+        ctx.finding('listeners:removed-still-fires', 'subclass fires %s after unregistering the inherited listener 1' % sub2,
+                    {'op': 'late', 'sub': sub2, 'base': base2})
+    if base2 != base:
+        ctx.finding('listeners:shared-with-base', 'unregistering an inherited listener on the subclass changes the base: %s -> %s' % (base, base2),
+                    {'op': 'late', 'sub': sub2, 'base': base2})
     # T2: the model of this history (Sub = inherit [Base at creation] + own; Base = its own registrations)
-    return [({'op': 'mgr', 'mgr': {'bases': [{'bases': [], 'regs': [['x', 1]]}], 'regs': [['x', 3]]}, 'query': ['x']}, {'ok': [sub]}),
-            ({'op': 'mgr', 'mgr': {'bases': [], 'regs': [['x', 1], ['x', 2]]}, 'query': ['x']}, {'ok': [base]})]
+    return [({'op': 'mgr', 'mgr': {'bases': [{'bases': [], 'regs': [['x', 1]]}], 'regs': [['x', 3]]}, 'query': ['x']}, {'ok': [sub], 'keyerr': []}),
+            ({'op': 'mgr', 'mgr': {'bases': [], 'regs': [['x', 1], ['x', 2]]}, 'query': ['x']}, {'ok': [base], 'keyerr': []})]
 
 
 def replay(ctx, obj):
@@ -1065,7 +1126,7 @@ def replay(ctx, obj):
             print('model    : not available (%s)' % e)
         return 1 if r else 0
     if obj.get('op') == 'mgr':
-        impl, _ = real_history(obj['spec'], [obj['event']])
+        impl, _, _ = real_history(obj['spec'], [obj['event']])
         print('impl fires', impl[0], 'expected', mgr_handlers(obj['spec'], obj['event']))
         return 0 if impl[0] == mgr_handlers(obj['spec'], obj['event']) else 1
     print(json.dumps(obj, indent=1)[:3000])
